@@ -146,12 +146,19 @@ class SigmaDetectionItem(ProcessingItemTrackingMixin, ParentChainMixin):
         else:
             val_list = val
 
+        if SigmaRegularExpressionModifier in modifiers and not all(
+            isinstance(v, str) for v in val_list
+        ):
+            raise sigma_exceptions.SigmaTypeError(
+                "Modifier re is only applicable to string values", source=source
+            )
+
         # Map Python types to Sigma typing classes
         sigma_val = [
             (
                 SigmaString.from_str(
                     cast("str", v),
-                )  # The string type is ensured previously by the 're' modifier.
+                )  # The string type is ensured by the check above.
                 if SigmaRegularExpressionModifier in modifiers
                 else sigma_type(v)
             )
